@@ -84,6 +84,8 @@ def assign_rules(typed):
         Rule("R6", "input . user_data ( ) . get_ident_from_name_local ( $i . name ( ) )", "get_ident_from_name_local ( & input , & $i . name )", why="scope lookup abstract (innermost scope only)"),
         Rule("R6", "input . user_data ( ) . get_dependency_flags_from_name ( ident . name ( ) ) . map ( | x | x . 0 . to_owned ( ) )", "get_dependency_ident_from_name ( & input , & ident . name )", why="scope lookup abstract (the ident of the pair)"),
         Rule("R1", ". map ( | x | x . to_owned ( ) )", "", why="Option<&Ident> -> Option<Ident>: the abstract lookup already returns an owned ident"),
+        Rule("R1", ". map ( | $p | Ident :: clone ( & $p ) )", "", why="Option<Ref<Ident>> -> Option<Ident>: the abstract lookup already returns an owned ident"),
+        Rule("R1", ". map ( | $p | $p . clone ( ) )", "", why="Option<Ref<Ident>> -> Option<Ident>: the abstract lookup already returns an owned ident"),
         Rule("R1", ". map ( | $v | $v . clone ( ) )", "", why="Option<&Ident> -> Option<Ident>"),
         Rule("R1", ". cloned ( )", "", why="Option<&Ident> -> Option<Ident>"),
         Rule("R6", "Self :: r#type ( ty ) . to_err_vec ( ) ?", "parse_type ( ty ) ?", why="sub-parser abstract"),
@@ -148,13 +150,13 @@ pub fn assignment_no_type(input: Node, is_const: bool, is_modify: bool) -> (r: R
 fn main() {{}}
 """
     obls = [Obl(f"C10.ident.{n}", ["C10", "C11"], fn=f"Ident::{n}", desc=f"Ident::{n}: name / const flag / type as the const checks rely on") for n in IDENT_FNS] + [
-        Obl("C10.assignment_type", ["C10", "C03", "C07"], fn="assignment_type", desc="Parser::assignment_type: previous declaration = lookup over all blocks of the function (or the captured scopes for modify); const marks read-only; modify marks captured; incompatible typed initializer rejected"),
-        Obl("C10.assignment_no_type", ["C10", "C07"], fn="assignment_no_type", desc="Parser::assignment_no_type: same lookup / flag contract for untyped assignments"),
+        Obl("C10.assignment_type", ["C10", "C03", "C07", "C02"], fn="assignment_type", desc="Parser::assignment_type: previous declaration = lookup over all blocks of the function (or the captured scopes for modify); const marks read-only; modify marks captured; incompatible typed initializer rejected"),
+        Obl("C10.assignment_no_type", ["C10", "C07", "C02"], fn="assignment_no_type", desc="Parser::assignment_no_type: same lookup / flag contract for untyped assignments"),
     ]
     return gen, obls, log
 
 
-UNITS = [VUnit("c10_assign", ["C10", "C03", "C07", "C11"], "Ident const flag propagation; assignment declaration side", build)]
+UNITS = [VUnit("c10_assign", ["C10", "C03", "C07", "C11", "C02"], "Ident const flag propagation; assignment declaration side", build)]
 UNITS[0].assumes = ["pest API, scope lookups and sub-parsers are abstract (arbitrary results): the contracts hold for every parse tree and context",
                     "child counts of the nodes are the grammar's productions (preconditions, not proved against pest)",
                     "the const test itself is in Parser::assignment (separate obligation); diagnostics' text is dropped"]
